@@ -17,6 +17,7 @@ func init() {
 		Thorough: func(r *fw.Run) {
 			workspaceWhoMayCall(r, []wsCallRule{
 				{Rule: "C13-T1", What: "resolve.SubscriptionDataSource.Start is called only from Resolver.addSubscription (the goroutine of a newly created trigger)", Callees: []string{"resolve:SubscriptionDataSource.Start"}, Allowed: []string{"resolve:Resolver.addSubscription"}, Why: "a subscription source is started from outside the trigger registry: the upstream is not shared, not counted and never cleaned up with the trigger", Expected: 1},
+				{Rule: "C13-T2", What: "outside package resolve the SubscriptionUpdater callbacks are called only by the GraphQL subscription source, where the Error/Complete→Done typestate is checked", Callees: []string{"resolve:SubscriptionUpdater.Update", "resolve:SubscriptionUpdater.UpdateSubscription", "resolve:SubscriptionUpdater.Complete", "resolve:SubscriptionUpdater.Error", "resolve:SubscriptionUpdater.Done", "resolve:SubscriptionUpdater.CloseSubscription"}, Allowed: []string{"resolve:", "gqlds:"}, Why: "another package drives a trigger's updater: the typestate rule C13-R7 (Done after Error/Complete) only sees graphql_datasource — a source that forgets Done leaves its trigger registered for ever", Expected: 14},
 			})
 		},
 		Explanation: "Decides the structural half of 'triggers are shared by input+headers, started once, always cleaned up': must-lock-sets (with inter-procedural entry sets) show the trigger/subscription registries are only touched under Resolver.mu (and trigger.subscriptions under both locks for writes); " +
